@@ -152,7 +152,7 @@ def run_echo_case(case):
                     return
             await client.quit()
             await asyncio.sleep(1)
-            await asyncio.wait_for(server.close(), 1e4)
+            await common.close_server(server)
 
         world.run(main())
         if world.outcome not in ("ok", "budget", "deadlock"):
@@ -347,7 +347,7 @@ def run_stall_case(case):
                 info["decoded"] += 1
             client.close()
             await asyncio.sleep(1)
-            await asyncio.wait_for(server.close(), 1e4)
+            await common.close_server(server)
 
         world.run(main())
         if world.outcome not in ("ok", "budget", "deadlock"):
